@@ -416,7 +416,7 @@ func GenCase(t *rapid.T, p *Profile) *Case {
 }
 
 var allMethods = []int{0, 0, 1, 1, 2, 2, 2, 3, 4, 5, 5, 6, 9, 10, 11, 12, 13}
-var hostileMethods = []int{0, 1, 2, 3, 4, 5, 6, 7, 8, 9}
+var hostileMethods = []int{0, 1, 2, 3, 4, 5, 6, 7, 8, 9, 14, 15, 16, 17, 18}
 
 // Profiles by name.
 var Profiles = map[string]*Profile{
